@@ -2925,7 +2925,7 @@ static EntryTableDArray bufr_csv_read_tabled (EntryTableDArray addr_tabled, cons
    fp = fopen ( filename, "rb" ) ;
    if (fp == NULL)
 		{
-      sprintf( ligne, _("Warning: can't open Table D file %s\n"), filename );
+      snprintf( ligne, sizeof(ligne), _("Warning: can't open Table D file %s\n"), filename );
       bufr_print_debug( ligne );
       return NULL;
       }
